@@ -77,6 +77,14 @@ def run(tier, seed, ctx):
         cases.append(((i,), 'addh M - 0 0 0 2 G0r F %s 0 ' % texts[i]))
         for j in range(i, len(qs)):
             cases.append(((i, j), 'addh M - 0 0 0 3 G0r F %s F %s 0 ' % (texts[i], texts[j])))
+    # the received event: two receivers of one event are accepted iff neither is mutable (shared xor exclusive)
+    recv_cases = []
+    for a in 'rm':
+        for b in 'rm':
+            for ev, q in (('G0', ''), ('G1', ''), ('T0', ' e'), ('T1', ' r0')):
+                recv_cases.append(((a, b), 'addh M - 0 0 0 2 %s%s%s %s%s%s 0 ' % (ev, a, q, ev, b, q)))
+    rpath = os.path.join(ctx['CACHE'], 'c05_receivers.ops')
+    open(rpath, 'w').write('\nreset\n'.join(c[1] for c in recv_cases) + '\n')
     path = os.path.join(ctx['CACHE'], 'c05_pairs.ops')
     open(path, 'w').write('\nreset\n'.join(c[1] for c in cases) + '\n')
     violations, n_rej, n_acc = [], 0, 0
@@ -97,6 +105,21 @@ def run(tier, seed, ctx):
                                         documented_meaning='must be accepted' if exp else 'must be rejected: on the archetype with components %s two parameters alias a component mutably' % arch,
                                         queries=[texts[i] for i in idx]), True))
                 break
-    cov = dict(c05_pair_handlers=len(cases), c05_pair_accepted=n_acc // 2, c05_pair_rejected=n_rej // 2,
+    if not violations:
+        for prof in ('debug', 'release'):
+            p = subprocess.run(['%s/%s/h_world' % (target, prof), rpath, 'quiet'], stdout=subprocess.PIPE, stderr=subprocess.PIPE, text=True, timeout=600)
+            verdicts = [l for l in p.stdout.split('\n') if l.startswith('R ')]
+            if p.returncode != 0 or len(verdicts) != len(recv_cases):
+                violations.append((dict(kind='c05-receivers', broken='harness run', profile=prof, rc=p.returncode, got=len(verdicts), expected=len(recv_cases), stderr=p.stderr[-500:]), False))
+                break
+            for ((a, b), op), v in zip(recv_cases, verdicts):
+                accepted = not v.startswith('R panic')
+                exp = (a == 'r' and b == 'r')
+                if accepted != exp:
+                    violations.append((dict(kind='c05-receivers', profile=prof, ops=[op.strip()], implementation='accepted' if accepted else 'rejected: ' + v,
+                                            documented_meaning='must be accepted' if exp else 'must be rejected: the handler would access the received event both shared and exclusively'), True))
+                    break
+            if violations: break
+    cov = dict(c05_receiver_pairs=len(recv_cases), c05_pair_handlers=len(cases), c05_pair_accepted=n_acc // 2, c05_pair_rejected=n_rej // 2,
                c05_pair_rule='every single registry query and every unordered pair of the %d registry queries as Fetcher parameters of one handler; verdict of World::add_handler (debug and release) compared with the aliasing semantics evaluated over all 64 component sets' % len(qs))
     return violations[:1], cov
